@@ -12,7 +12,7 @@
    as an oracle that tiles the buffer, C03), the C glue and the keyboard-layout tables, wall-clock time. *)
 From Coq Require Import NArith List Bool Arith Lia.
 From LC Require Import Base.Lib Gen.Keyboard_gen Model.Keyboard Gen.Editor_gen Model.Syllable Model.Composition Model.Conversion Model.Editor Model.EditorRun
-     Model.EdInst Proofs.CompositionProofs Proofs.EdInstProofs Proofs.EditorInv Proofs.EditorWitness Proofs.EditorSelect Proofs.NoPanic Proofs.KeyEventsOk Proofs.GraphPath Model.Engine Proofs.EngineProofs.
+     Model.EdInst Proofs.CompositionProofs Proofs.EdInstProofs Proofs.EditorInv Proofs.EditorWitness Proofs.EditorSelect Proofs.NoPanic Proofs.KeyEventsOk Proofs.GraphPath Model.Engine Proofs.EngineProofs Proofs.SimpleEngineProofs.
 From Coq Require Import ZArith Permutation.
 Import ListNotations.
 Open Scope nat_scope.
@@ -123,7 +123,7 @@ Print Assumptions C01_selector_next_without_word_fixed.
    32..126 does, C01_capi_key_events_are_ok - anything else is U+FFFD) and whose option records have a page
    size of at least 1 (the C API accepts 1..10).  `fine r`: r is neither `Panic site` nor `OutOfFuel`. *)
 Section Histories.
-Context {D SY : Type} (dops : dict_ops D) (sops : syl_ops SY) (conv : conv_fn).
+Context {D SY : Type} (dops : dict_ops D) (sops : syl_ops SY) (conv : conv_fn D).
 Variable dict_ok : D -> Prop.
 Hypothesis ok_lookup : forall d f, dict_ok d -> do_lookup dops d f [] = [].
 Hypothesis ok_add : forall d k t f, dict_ok d -> length t <= length k -> (f <= 100)%N -> dict_ok (fst (do_add dops d k t f)).
@@ -135,7 +135,7 @@ Hypothesis ss0_good : ss_good ss0.
 Hypothesis ss0_fresh : ss_cursor ss0 = None.
 Hypothesis ok_text : forall d f k p, dict_ok d -> In p (do_lookup dops d f k) -> fst p <> [].
 Hypothesis ok_freq : forall d f k p, dict_ok d -> In p (do_lookup dops d f k) -> (snd p < 4000000000)%N.
-Hypothesis conv_tiles : forall c n, wf_comp c -> contiguous 0 (clen c) (conv c n) = true.
+Hypothesis conv_tiles : forall d k c n, dict_ok d -> wf_comp c -> contiguous 0 (clen c) (conv d k c n) = true.
 
 Theorem C01_every_operation_total : forall e o, op_fine o -> Inv dops sops dict_ok ss0 e ->
   fine (step dops sops conv e o).
@@ -206,17 +206,11 @@ Print Assumptions C01_conversion_engine_never_panics.
 (* ... so the engine model, asked for its n-th alternative as Editor::conversion does (paths[n % paths.len()]),
    meets the contract `conv_tiles` that C01_no_history_panics_or_hangs asks of the conversion oracle, for every
    buffer of up to 4000 symbols (the C API limits the buffer to 39 + the symbol being typed) *)
-Definition engine_conv (sortu : list path -> list path) (spell : N -> list N) (lookup : lookup_fn) : conv_fn :=
-  fun c n => match chewing_convert sortu spell lookup c with
-             | Ok alts => List.nth (n mod length alts) alts []
-             | _ => []
-             end.
-
 Theorem C01_engine_meets_the_oracle_contract : forall sortu lookup spell c n,
   (forall l, Permutation (sortu l) l) -> lookup [] = [] -> wf_comp c -> clen c <= 4000 ->
-  contiguous 0 (clen c) (engine_conv sortu spell lookup c n) = true.
+  contiguous 0 (clen c) (engine_alt sortu spell lookup c n) = true.
 Proof.
-  intros sortu lookup spell c n Hp Hn Wc Hl. unfold engine_conv, chewing_convert.
+  intros sortu lookup spell c n Hp Hn Wc Hl. unfold engine_alt, chewing_convert.
   destruct (chewing_convert_spec lookup Hn spell c Wc sortu Hp Hl) as (alts & b & -> & Hne & Hall). cbn [bind fst].
   apply Hall. apply nth_In. apply Nat.mod_upper_bound. destruct alts; [contradiction | discriminate].
 Qed.
@@ -286,7 +280,7 @@ Print Assumptions C01_every_layout_key_event_is_admitted.
    meets every dictionary hypothesis: the theorem applies to the very instance that is compared with the
    Rust editor *)
 Theorem C01_no_history_panics_or_hangs_instance : forall conv ss d s0 ab t0 ops,
-  (forall c n, wf_comp c -> contiguous 0 (clen c) (conv c n) = true) ->
+  (forall d k c n, md_fine d -> wf_comp c -> contiguous 0 (clen c) (conv d k c n) = true) ->
   ss_good ss -> ss_cursor ss = None -> md_fine d -> Forall op_fine ops ->
   fine (run md_ops std_ops conv (init_editor d s0 ab ss t0) ops).
 Proof.
@@ -302,18 +296,44 @@ Proof.
 Qed.
 Print Assumptions C01_no_history_panics_or_hangs_instance.
 
+(* ---- editor and engines together: no oracle left ---- *)
+(* The editor instance the correspondence check runs, with the conversion answered by the MODELLED engines
+   over the editor's current dictionary (Model/EdInst.v: m_conv - SimpleEngine::convert, or the n-th
+   alternative of the Chewing / Fuzzy engine model): no history of operations panics or hangs.  The engine
+   model is exact for buffers of up to 4000 symbols (the C API's limit is 39); m_conv answers longer ones
+   with one interval per symbol, outside the model. *)
+Lemma m_conv_tiles : forall d k c n, md_fine d -> wf_comp c -> contiguous 0 (clen c) (m_conv d k c n) = true.
+Proof.
+  intros d k c n Hd Wc. unfold m_conv.
+  assert (Hs : contiguous 0 (clen c) (simple_convert (m_lookup1 d) spell c) = true) by (now apply simple_convert_contiguous).
+  assert (He : forall f, clen c <= 4000 ->
+               contiguous 0 (clen c) (engine_alt sort_by_len spell (fun syms => md_lookup d f (syl_prefix syms)) c n) = true).
+  { intros f Hl. apply C01_engine_meets_the_oracle_contract; [apply C01_sort_by_len_permutes | | exact Wc | exact Hl].
+    cbn [syl_prefix]. apply md_ok_lookup. now apply md_fine_ok. }
+  destruct k; [exact Hs | |]; (destruct (Nat.leb (clen c) 4000) eqn:E; [apply He; now apply Nat.leb_le | exact Hs]).
+Qed.
+
+Theorem C01_no_history_panics_or_hangs_with_the_modelled_engines : forall ss d s0 ab t0 ops,
+  ss_good ss -> ss_cursor ss = None -> md_fine d -> Forall op_fine ops ->
+  fine (run md_ops std_ops m_conv (init_editor d s0 ab ss t0) ops).
+Proof.
+  intros ss d s0 ab t0 ops Hg Hf Hd Hops.
+  apply C01_no_history_panics_or_hangs_instance; try assumption. exact m_conv_tiles.
+Qed.
+Print Assumptions C01_no_history_panics_or_hangs_with_the_modelled_engines.
+
 (* the premises hold somewhere non-trivial: a dictionary with a system and a user phrase, the conversion
    that gives every symbol its own interval, a history that types, opens the list, pages and commits *)
 Example C01_instance_premises_hold :
   md_fine d3 /\ ss_good ss_empty /\ ss_cursor ss_empty = None /\
-  (forall c n, wf_comp c -> contiguous 0 (clen c) (conv_single c n) = true) /\
+  (forall (d : memdict) k c n, wf_comp c -> contiguous 0 (clen c) (conv_single d k c n) = true) /\
   Forall op_fine (open_third_page ++ [OpKey (key kc_Space 32%N); OpStart; OpCommit]).
 Proof.
   split; [split; repeat constructor; try discriminate; reflexivity|].
   split; [split; intros name; [intros [] | intros idx []]|].
   split; [reflexivity|].
   split.
-  - intros c n _. unfold conv_single. generalize (clen c) as len. intros len.
+  - intros d ek c n _. unfold conv_single. generalize (clen c) as len. intros len.
     assert (G : forall k from, contiguous from (from + k) (map (fun i => mkIv i (S i) true [20013%N]) (seq from k)) = true).
     { induction k as [|k IH]; intros from; cbn [seq map contiguous ib ie].
       - rewrite Nat.add_0_r. apply Nat.eqb_refl.
